@@ -27,7 +27,7 @@ FLAGBITS = {
 }
 KINDS = ["reg", "reg", "reg", "reg-space", "reg-deleted-gone", "reg-deleted-kept",
          "reg-deleted-literal", "relative", "dir", "chardev", "socket", "pipe",
-         "anon_inode", "missing-target", "reg-nul"]
+         "anon_inode", "missing-target", "reg-nul", "reg-devshm"]
 
 IO_NAMES = ["rchar", "wchar", "syscr", "syscw", "read_bytes", "write_bytes",
             "cancelled_write_bytes"]
@@ -76,6 +76,9 @@ def target_of(kind, fd):
     base = f"{ROOT}/data/file{fd}" + ("", ".txt", "-deleted", " (old)", ".d")[fd % 5]
     if kind == "reg":
         return base, base
+    if kind == "reg-devshm":
+        # a regular file that lives under /dev (POSIX shared memory, semaphores)
+        return f"/dev/shm/psv-{fd}", f"/dev/shm/psv-{fd}"
     if kind == "reg-space":
         return f"{ROOT}/my dir/file {fd}.txt", f"{ROOT}/my dir/file {fd}.txt"
     if kind == "reg-deleted-gone":
@@ -133,7 +136,7 @@ def build(case):
         for name in d["flags"]:
             flags |= FLAGBITS[name]
         fds[fd] = simk.FD(tgt, d["pos"], flags, d["kind"])
-        if d["kind"] in ("reg", "reg-space", "reg-deleted-kept", "reg-nul"):
+        if d["kind"] in ("reg", "reg-space", "reg-deleted-kept", "reg-nul", "reg-devshm"):
             k.set_file(listed_path, b"data")
         elif d["kind"] == "reg-deleted-literal":
             k.set_file(listed_path, b"data")
